@@ -614,6 +614,14 @@ func journalWritesAfterDemotion(c *common.Ctx, r *common.Rand, idx int) error {
 		if after != before {
 			c.Violate("C07:journal-write-after-demotion:changed", fmt.Sprintf("writing %s to the journal of a demoted primary changed the database: %+v -> %+v", w.what, before, after), rep)
 		}
+		if errno == int(syscall.ENOENT) {
+			// the recovery that follows the loss of the role (a goroutine of the store) has rolled the journal back and
+			// removed it before this write: there is no journal to write to, which refuses the write just as well
+			if _, serr := os.Stat(db.JournalPath()); os.IsNotExist(serr) {
+				c.Count("journal_gone_before_write_after_demotion", 1)
+				continue
+			}
+		}
 		if errno != int(syscall.EACCES) {
 			c.Violate("C07:journal-write-after-demotion:errno", fmt.Sprintf("writing %s to the journal of a demoted primary answered errno %d, want the read-only permission error EACCES (13)", w.what, errno), rep)
 		}
